@@ -19,6 +19,11 @@ Streams (correspondence; model = `lake env lean --run Driver/C06.lean`, Core/Cal
                 callee form (module-level def, method, classmethod, staticmethod, nested def = signature from the def node,
                 function imported from a generated library module = signature from the runtime object with its own globals):
                 every verdict and inferred type must equal the plain module-level one     vs each other and the model verdict
+  star-merge  : calls whose positional section interleaves plain positionals, `*xs` of unknown length (element types int,
+                str, int|str, B, A), known-length `*(a, b)` and `*[]`: the merged ActualArguments.star_args of
+                preprocess_args                                                    vs Lean `starMerge`; P1 on such calls judged
+                on every expansion (each *xs at every length 0..3, really bound by CPython): some expansion binds an argument
+                outside its declared type => a diagnostic is reported
   translator  : Generated/AnnotCtx.lean = every type_from_runtime / AnnotationsContext site of arg_spec.py with the context /
                 globals it gets (AST scan of the live source); obligation `annotation_contexts_registered`
 Property search on the implementation (oracle independent of pyanalyze: real execution + reference `member`):
@@ -1274,6 +1279,188 @@ def spelling_stream(ctx, items, with_model=True):
                                       cls=None, conforms=conforms, stream="P4")
 
 
+# ------------------------------------------------------------------ several *iterables in one call
+# The positional section drawn from the full call grammar: any interleaving of plain positionals, `*xs` of unknown length,
+# known-length `*(a, b)` tuples and `*[]`, against callees with a variadic parameter. Keyword section: shuffled keywords.
+STAR_VARS = {"xi": ("typed", G.INT), "xs": ("typed", G.STR), "xu": ("union", [("typed", G.INT), ("typed", G.STR)]),
+             "xb": ("typed", V.CID[U.B]), "xa": ("typed", V.CID[U.A])}
+STAR_ELEMS = {"xi": [1], "xs": ["a"], "xu": [1, "a"], "xb": None, "xa": None}   # None: instances of the class
+STAR_RUN = "def run(xi: list[int], xs: list[str], xu: list[Union[int, str]], xb: list[B], xa: list[A]) -> None:"
+
+
+def star_callees():
+    I, S, Bt, At = ("typed", G.INT), ("typed", G.STR), ("typed", V.CID[U.B]), ("typed", V.CID[U.A])
+    IS = ("union", [I, S])
+    out = []
+    for T in (I, S, IS, Bt, At):
+        out.append([("r", "vp", None, T)])
+    for T, Uu in ((I, I), (I, S), (S, I), (At, Bt), (Bt, At), (IS, I)):
+        out.append([("a", "pk", None, T), ("r", "vp", None, Uu)])
+        out.append([("a", "po", None, T), ("r", "vp", None, Uu)])
+    out.append([("a", "pk", None, I), ("b", "pk", ("int", 0), I), ("r", "vp", None, I)])
+    out.append([("a", "po", None, S), ("b", "pk", ("str", "a"), S), ("r", "vp", None, IS), ("k", "ko", ("int", 0), I)])
+    return out
+
+
+def random_pos_section(rng):
+    """<= 5 items: ('p', obj) | ('s', var) | ('t', [objs]) known-length tuple | ('e',) = *[]"""
+    n = rng.choice([2, 3, 3, 4, 4, 5])
+    items = []
+    lits = [("int", 1), ("int", 2), ("str", "a"), ("none",), ("bool", 1), ("flt", 0)]
+    for _ in range(n):
+        r = rng.random()
+        if r < 0.4:
+            items.append(("p", rng.choice(lits)))
+        elif r < 0.8:
+            items.append(("s", rng.choice(list(STAR_VARS))))
+        elif r < 0.93:
+            items.append(("t", [rng.choice(lits) for _ in range(rng.choice([1, 2]))]))
+        else:
+            items.append(("e",))
+    return items
+
+
+def pos_section_src(items):
+    parts = []
+    for it in items:
+        if it[0] == "p":
+            parts.append(obj_src(it[1]))
+        elif it[0] == "s":
+            parts.append("*" + it[1])
+        elif it[0] == "t":
+            parts.append("*(%s,)" % ", ".join(obj_src(o) for o in it[1]))
+        else:
+            parts.append("*[]")
+    return parts
+
+
+def star_expansions(items):
+    """Concrete positional tuples: every *xs at every length 0..3 with elements of its element type."""
+    import itertools
+    per = []
+    for it in items:
+        if it[0] == "p":
+            per.append([[V.obj_to_py(it[1])]])
+        elif it[0] == "t":
+            per.append([[V.obj_to_py(o) for o in it[1]]])
+        elif it[0] == "e":
+            per.append([[]])
+        else:
+            el = STAR_ELEMS[it[1]]
+            if el is None:
+                cls = U.B if it[1] == "xb" else U.A
+                el = [U.instance(cls, 0)]
+            opts = [[]]
+            for e in el:
+                opts += [[e] * k for k in (1, 2, 3)]
+            if len(el) > 1:
+                opts += [[el[0], el[1]], [el[1], el[0], el[1]]]
+            per.append(opts)
+    for combo in itertools.product(*per):
+        yield [x for part in combo for x in part]
+
+
+def stars_stream(ctx, with_model=True):
+    import ast
+    from pyanalyze import signature as S
+    from pyanalyze.stacked_scopes import Composite
+    from pyanalyze.value import GenericValue, KnownValue
+    rng = ctx.rng
+    callees = star_callees()
+    ncalls = ctx.n(6, 40)
+    cases = []
+    fixed = [[("s", "xi"), ("p", ("str", "a")), ("s", "xi")], [("p", ("int", 1)), ("s", "xi"), ("p", ("str", "a")), ("s", "xi")],
+             [("s", "xi"), ("p", ("str", "a"))], [("s", "xs"), ("s", "xi")], [("s", "xu"), ("s", "xi")], [("s", "xa"), ("s", "xb")],
+             [("s", "xb"), ("s", "xa")], [("s", "xi"), ("t", [("str", "a")]), ("s", "xi")], [("s", "xu"), ("p", ("none",)), ("s", "xi")]]
+    for ci, params in enumerate(callees):
+        secs = (fixed if ci < 6 else fixed[:3]) + [random_pos_section(rng) for _ in range(ncalls)]
+        for items in secs:
+            kws = []
+            if any(p[1] == "ko" for p in params) and rng.random() < 0.5:
+                kws = [("k", ("int", 1))] if rng.random() < 0.7 else [("k", ("str", "a"))]
+            cases.append((ci, items, kws))
+    src = [PRELUDE.rstrip("\n")]
+    for ci, params in enumerate(callees):
+        src += ["def g%d(%s) -> int:" % (ci, header_src(params)), "    return 0"]
+    src.append(STAR_RUN)
+    base = sum(x.count("\n") + 1 for x in src)
+    for ci, items, kws in cases:
+        parts = pos_section_src(items) + ["%s=%s" % (k, obj_src(o)) for k, o in kws]
+        src.append("    g%d(%s)" % (ci, ", ".join(parts)))
+    fails, tree, mod = pya.check_source("\n".join(src) + "\n")
+    byline = {}
+    for f in fails:
+        if f["lineno"] is not None and f["lineno"] > base:
+            byline.setdefault(f["lineno"] - base - 1, []).append(f)
+    # ---- unit: the merged element type ActualArguments.star_args  vs  Lean starMerge
+    checker = pya.make_checker()
+    unit, lines = [], []
+    for ci, items, kws in cases:
+        alist, mitems = [], []
+        for it in items:
+            if it[0] == "p":
+                alist.append((Composite(KnownValue(V.obj_to_py(it[1]))), None))
+                mitems.append("(p (known %s))" % V.obj_sexp(V.canon_obj(it[1])))
+            elif it[0] == "s":
+                alist.append((Composite(GenericValue(list, [V.ty_to_value(STAR_VARS[it[1]])])), S.ARGS))
+                mitems.append("(s %s)" % V.ty_sexp(STAR_VARS[it[1]]))
+            elif it[0] == "t":
+                alist.append((Composite(KnownValue(tuple(V.obj_to_py(o) for o in it[1]))), S.ARGS))
+                mitems += ["(p (known %s))" % V.obj_sexp(V.canon_obj(o)) for o in it[1]]
+            else:
+                alist.append((Composite(KnownValue([])), S.ARGS))
+        try:
+            act = S.preprocess_args(alist, S._CanAssignBasedContext(checker))
+            unit.append("ERR" if act is None else ("none" if act.star_args is None else V.ty_sexp(V.value_to_ty(act.star_args))))
+        except Exception as e:
+            unit.append("EXC:%s" % type(e).__name__)
+        lines.append("(starmerge %s)" % " ".join(mitems))
+    model = lean.run_driver("C06", lines) if with_model else None
+    fns = {}
+    for li, (ci, items, kws) in enumerate(cases):
+        params = callees[ci]
+        text = "g(%s)" % ", ".join(pos_section_src(items) + ["%s=%s" % (k, obj_src(o)) for k, o in kws])
+        case = {"def": "def g(%s)" % header_src(params), "call": text, "stream": "stars",
+                "stars": {"callee": ci, "items": items, "kws": kws}}
+        nstars = sum(1 for it in items if it[0] == "s")
+        ctx.count(1, **{"stars_%d" % nstars: 1})
+        ctx.nontriv(case["def"] + "|" + text)
+        if model is not None:
+            ctx.corr("star-merge")
+            if unit[li] != model[li]:
+                ctx.disagree("star-merge", {"def": case["def"], "call": text}, unit[li], model[li])
+        fs = byline.get(li, [])
+        codes = [f["code"] for f in fs]
+        reported = "incompatible_argument" in codes or "incompatible_call" in codes
+        other = [c_ for c_ in codes if c_ not in ("incompatible_argument", "incompatible_call")]
+        if other:
+            ctx.tag("stars_other_" + other[0])
+            continue
+        # ---- oracle: some expansion binds an argument outside its declared type
+        lf = fns.get(ci) or fns.setdefault(ci, landing_fn(params))
+        witness = None
+        for pos in star_expansions(items):
+            try:
+                loc = lf(*pos, **{k: V.obj_to_py(o) for k, o in kws})
+            except TypeError:
+                continue
+            for (n_, k_, d_, a_) in params:
+                v = loc[n_]
+                objs = list(v) if k_ == "vp" else ([] if v is _D else [v])
+                bad = next((o for o in objs if not G.member(o, a_)), None)
+                if bad is not None:
+                    witness = (pos, n_, bad)
+                    break
+            if witness:
+                break
+        ctx.tag("P1_stars")
+        if witness is not None and not reported:
+            ctx.candidate(dict(case, expansion=repr(witness[0])),
+                          "call not diagnosed although in the expansion %r the argument %r binds to %s and is not a member of "
+                          "its declared type" % (witness[0], witness[2], witness[1]),
+                          cls=None, conforms=(model is None or unit[li] == model[li]), stream="P1-stars")
+
+
 # ------------------------------------------------------------------ the check
 def gen_items(ctx):
     rng = ctx.rng
@@ -1624,15 +1811,21 @@ def run(ctx):
     items = corpus_items() + gen_items(ctx)
     evaluate(ctx, items)
     spelling_stream(ctx, spelling_items(ctx, items))
+    stars_stream(ctx)
 
 
 def run_impl_only(ctx):
     items = corpus_items() + gen_items(ctx)
     evaluate(ctx, items, with_model=False)
     spelling_stream(ctx, spelling_items(ctx, items), with_model=False)
+    stars_stream(ctx, with_model=False)
 
 
 def replay(ctx, data):
+    if data["case"].get("stream") == "stars":
+        stars_stream(ctx)
+        print(json.dumps({"candidates": ctx.candidates[:5], "broken": ctx.broken[:5]}, indent=1, default=str))
+        return 1 if (ctx.candidates or ctx.broken) else 0
     item = item_from_json(data["case"])
     evaluate(ctx, [item])
     if item[0]["kind"] == "plain":
